@@ -72,6 +72,7 @@ pub fn compile_case(v: &Value) -> Value {
                         "mono_dbg" => format!("{:?}", c.mono),
                         "core_dbg" => format!("{:?}", c.core),
                         "tast_dbg" => format!("{:?}", c.tast),
+                        "builtin_names" => serde_json::to_string(&compiler::builtins::builtin_function_names()).unwrap(),
                         "cst" => parser::debug_tree(&c.green_node),
                         "ast" => c.ast.to_pretty(120),
                         "hir" => {
